@@ -9,13 +9,20 @@
 //	                                              non-empty prefix; ALL results are kept and only read
 //	                                              after the last call (and after a GC for some inputs),
 //	                                              so a result that aliases a pooled buffer shows
+//	K <hexlist> <ops>   | q<hex>;j<hex>;r<ok>:<hexlist>;s<ok>:<hexlist>;…   a history of calls in ONE process
+//	                                              (round 4): ops is a ','-separated list of q<i> Quote(ss[i]),
+//	                                              j<i>.<n> Join(ss[i:i+n]), r<i>.<n> Split(Join(ss[i:i+n])),
+//	                                              s<i> Split(ss[i]); every result is kept and read after the
+//	                                              last call, so state that one call leaves behind for the next
+//	                                              (a pool, a table of recent results) shows in a replayable line
 //	N <frag> <hex> <ops> | n<ok>:<hex text>:<complete>;r<hex rest>;…   Scanner session
 //
 // Session ops: n Next (records result, Text, Complete), r Rest (records every byte read from it),
 // e Err (e0 nil, e1 io.EOF, e2 other), z Reset to a fresh reader of the same input (records z),
 // s Scanner.Split (s<hexlist>:<hex text>:<complete>, Text and Complete taken after the call), a Each
-// to the end, b/c Each whose callback returns false at the first/second token
-// (a|b|c<hexlist of the tokens passed to the callback>:<hex text>:<complete>).
+// to the end, b/c Each whose callback returns false at the first/second token, x/y Each whose
+// callback PANICS at the first/second token (recovered by the harness; the scanner is used on)
+// (a|b|c|x|y<hexlist of the tokens passed to the callback>:<hex text>:<complete>).
 // The strings returned by Text and passed to Each's callback are kept and read at the end of the
 // session.
 //
@@ -32,6 +39,7 @@
 package main
 
 import (
+	"errors"
 	"io"
 	"runtime"
 	"strconv"
@@ -159,6 +167,39 @@ func runaway(desc, src string) bool {
 	return bad
 }
 
+// errCallback is what the callback of the x / y session ops panics with
+var errCallback = errors.New("callback panics")
+
+// parseKOp reads one op of a K line: a letter, an index and (after '.') a count that defaults to 1
+func parseKOp(op string) (kind byte, i, n int) {
+	if op == "" {
+		return '?', 0, 0
+	}
+	rest := op[1:]
+	n = 1
+	if d := strings.IndexByte(rest, '.'); d >= 0 {
+		n, _ = strconv.Atoi(rest[d+1:])
+		rest = rest[:d]
+	}
+	i, _ = strconv.Atoi(rest)
+	return op[0], i, n
+}
+
+// subList is ss[i:i+n] cut to the list (an op that the shrinker has separated from its strings
+// still means something); elemAt likewise
+func subList(ss []string, i, n int) []string {
+	lo := min(max(i, 0), len(ss))
+	hi := min(max(i+n, lo), len(ss))
+	return ss[lo:hi:hi]
+}
+
+func elemAt(ss []string, i int) string {
+	if i < 0 || i >= len(ss) {
+		return ""
+	}
+	return ss[i]
+}
+
 func exec1(in string, partial *[]string) string {
 	// fields are separated by blanks; '_' is accepted too, so that an input can be quoted as one
 	// blank-free word in the FAIL lines of the supporting scripts (bin/incoq-shell, bin/dash-shell)
@@ -202,9 +243,53 @@ func exec1(in string, partial *[]string) string {
 			_ = shell.Quote(" overwrite the pooled buffer once more ")
 		}
 		return hxList(qs) + ";" + hxList(js)
+	case "K":
+		ss := unhxList(f[1])
+		var ops []string
+		if len(f) > 2 {
+			ops = strings.Split(f[2], ",")
+		}
+		var obs []held
+		flush := func() []string {
+			out := make([]string, len(obs))
+			for i, h := range obs {
+				out[i] = h.String()
+			}
+			return out
+		}
+		defer func() { *partial = flush() }()
+		for _, op := range ops {
+			kind, i, n := parseKOp(op)
+			switch kind {
+			case 'q':
+				obs = append(obs, held{pre: "q", txt: shell.Quote(elemAt(ss, i)), hasTxt: true})
+			case 'j':
+				obs = append(obs, held{pre: "j", txt: shell.Join(subList(ss, i, n)), hasTxt: true})
+			case 'r', 's':
+				src := elemAt(ss, i)
+				if kind == 'r' {
+					src = shell.Join(subList(ss, i, n))
+				}
+				if runaway("0", src) {
+					return strings.Join(append(flush(), "RUNAWAY"), ";")
+				}
+				fs, ok := shell.Split(src)
+				obs = append(obs, held{pre: string(kind) + tr.B(ok) + ":", toks: fs, hasToks: true})
+			default:
+				obs = append(obs, held{pre: "?"})
+			}
+		}
+		gcCases++
+		if len(ops)%3 == 0 && (gcCases <= 300 || gcCases%97 == 0) {
+			runtime.GC() // as for H lines: a kept result must not depend on the buffer it was built in
+		}
+		if len(ops)%3 == 0 {
+			_ = shell.Quote(" overwrite the pooled buffer once more ")
+		}
+		return strings.Join(flush(), ";")
 	case "N":
 		src := unhx(f[2])
-		if len(f) > 3 && strings.ContainsAny(f[3], "sabc") && runaway(f[1], src) {
+		if len(f) > 3 && strings.ContainsAny(f[3], "sabcxy") && runaway(f[1], src) {
 			return "RUNAWAY"
 		}
 		fr := newFrag(f[1], src)
@@ -222,12 +307,22 @@ func exec1(in string, partial *[]string) string {
 		if len(f) > 3 {
 			ops = f[3]
 		}
-		each := func(tag string, stopAt int) {
+		each := func(tag string, stopAt int, panics bool) {
 			var toks []string
-			sc.Each(func(tok string) bool {
-				toks = append(toks, tok)
-				return len(toks) != stopAt
-			})
+			func() {
+				defer func() {
+					if p := recover(); p != nil && p != any(errCallback) {
+						panic(p) // a panic of the package, not of the callback
+					}
+				}()
+				sc.Each(func(tok string) bool {
+					toks = append(toks, tok)
+					if panics && len(toks) == stopAt {
+						panic(errCallback)
+					}
+					return len(toks) != stopAt
+				})
+			}()
 			obs = append(obs, held{pre: tag, toks: toks, hasToks: true, txt: sc.Text(), hasTxt: true, post: ":" + tr.B(sc.Complete())})
 		}
 		for _, op := range ops {
@@ -255,11 +350,15 @@ func exec1(in string, partial *[]string) string {
 				toks := sc.Split()
 				obs = append(obs, held{pre: "s", toks: toks, hasToks: true, txt: sc.Text(), hasTxt: true, post: ":" + tr.B(sc.Complete())})
 			case 'a':
-				each("a", 0)
+				each("a", 0, false)
 			case 'b':
-				each("b", 1)
+				each("b", 1, false)
 			case 'c':
-				each("c", 2)
+				each("c", 2, false)
+			case 'x':
+				each("x", 1, true)
+			case 'y':
+				each("y", 2, true)
 			}
 		}
 		return strings.Join(flush(), ";")
@@ -374,7 +473,7 @@ func bigToken(r *tr.Rand, n int) string {
 func special(s string) bool { return strings.ContainsAny(s, " \t\n\\'\"|&;<>()$`*?[#~=%") }
 
 func main() {
-	tr.Main("C15: every single byte, all strings to length 3 (quick) / 4 (thorough) over a 28-symbol metacharacter alphabet for Quote and Split(Join), random lists of random strings, Unicode white space, hold cases (every result of a series of Quote/Join calls is read only after the last call, some after a GC), concurrent workers that read their results a window of calls later; C16: every byte value alone, inside a word and inside each kind of quoting, all strings to length 3 (quick) / 4 (thorough) over a 10-symbol alphabet with both blanks, NUL and a non-ASCII byte, all strings over the six tokenizer classes to length 6 (quick) / 8 (thorough) for Split, every Unicode white-space code point as UTF-8, scanner sessions under eleven reader fragmentations (fixed and random chunks, a last chunk delivered together with io.EOF, empty reads) with Rest after every number of Next calls under every fragmentation, Err/Reset/Scanner.Split/Each sessions, random long inputs, inputs and single tokens longer than bufio's buffer. Both: scale streams (scale.go) -- lengths, run lengths, element counts and reader chunk sizes 2^k-1, 2^k, 2^k+1 for k = 6..13 and beyond 2*4096, smallest first; C15: plain filler plus ONE special character class (each of the 22 bytes Quote protects, alone or with a single quote) at the end, start, around the leading power-of-two block, everywhere, sparse, alternating, through Quote, Join, Split(Join) and hold cases, lists of 2^k short elements; C16: 34 kinds of runs (bare / single- / double-quoted text, quoted blanks, escape runs, quotes and escapes opening exactly at the boundary, unterminated runs, continuation runs, separator runs of one class, many short tokens) through Split and through scanner sessions (Rest right after and right before the long token, full scan with Err, Scanner.Split, Each) under chunk sizes tied to the run length with the e and z flags. A case is non-trivial when its input contains a quoting character, separator or metacharacter; distinct = distinct input lines.",
+	tr.Main("C15: every single byte, all strings to length 3 (quick) / 4 (thorough) over a 28-symbol metacharacter alphabet for Quote and Split(Join), random lists of random strings, Unicode white space, hold cases (every result of a series of Quote/Join calls is read only after the last call, some after a GC), concurrent workers that read their results a window of calls later; C16: every byte value alone, inside a word and inside each kind of quoting, all strings to length 3 (quick) / 4 (thorough) over a 10-symbol alphabet with both blanks, NUL and a non-ASCII byte, all strings over the six tokenizer classes to length 6 (quick) / 8 (thorough) for Split, every Unicode white-space code point as UTF-8, scanner sessions under eleven reader fragmentations (fixed and random chunks, a last chunk delivered together with io.EOF, empty reads) with Rest after every number of Next calls under every fragmentation, Err/Reset/Scanner.Split/Each sessions, random long inputs, inputs and single tokens longer than bufio's buffer. Both: scale streams (scale.go) -- lengths, run lengths, element counts and reader chunk sizes 2^k-1, 2^k, 2^k+1 for k = 6..13 and beyond 2*4096, smallest first; C15: plain filler plus ONE special character class (each of the 22 bytes Quote protects, alone or with a single quote) at the end, start, around the leading power-of-two block, everywhere, sparse, alternating, through Quote, Join, Split(Join) and hold cases, lists of 2^k short elements; C16: 34 kinds of runs (bare / single- / double-quoted text, quoted blanks, escape runs, quotes and escapes opening exactly at the boundary, unterminated runs, continuation runs, separator runs of one class, many short tokens) through Split and through scanner sessions (Rest right after and right before the long token, full scan with Err, Scanner.Split, Each) under chunk sizes tied to the run length with the e and z flags. Round 4 (round4.go): K lines = histories of Quote / Join / Split(Join) / Split calls in ONE process with every result read after the last call -- exhaustive two-call histories over small near-equal (C15) or malformed (C16: all strings to length 2 over the six classes) strings, the equal-length collision pairs of corpus/common/hash-collisions.tsv (FNV-1a, FNV-1, CRC-32, 31-polynomial, djb2, Adler-32) quoted, joined and split one right after the other in both orders, with a third string in between, bare and with a common suffix that makes them need quotation, random histories over near-equal strings (one byte changed, two swapped, reversed, one more or less), a 300..4097-byte (thorough 8193) call before and between ordinary ones; every length 1..300 (thorough 600): C15 filler plus one special character of each of the 22 classes (last and one rotating position, with a single quote), element counts and joined lengths; C16 a token holding exactly L bytes (bare, double-quoted, single-quoted, half bare and half quoted) when each of 44 kinds of event arrives (the two-byte append after a backslash inside double quotes, escapes, continuations, quotes opening or closing, separators, end of input), with more bytes of the same token after it, through Split and a session under a rotating fragmentation, and seven of the events at every source offset 0..300; Each whose callback panics (recovered) at the first / second token, the scanner used on; 2-, 3- and 4-byte UTF-8 sequences, truncated, overlong and surrogate forms at the ends and in the middle of filler. A case is non-trivial when its input contains a quoting character, separator or metacharacter; distinct = distinct input lines.",
 		exec, func(g *tr.G) {
 			switch g.Prop {
 			case "C15":
@@ -390,6 +489,10 @@ func main() {
 				g.Emit("R "+hxList([]string{"", ""}), true, "empty-string")
 				g.Emit("J "+hxList([]string{"", "", ""}), true, "empty-string")
 				g.Emit("H "+hxList([]string{"", "a b", "", "'"}), true, "empty-string")
+				// round 4: short histories of calls in one line, the hash-collision pairs one right after
+				// the other (round4.go)
+				kSmall(g)
+				kCollisions(g)
 				for _, u := range uniSpaces {
 					for _, s := range []string{u, "a" + u + "b", u + "a", "a" + u, "a b" + u, u + "'"} {
 						g.Emit("Q "+hx(s), true, "unicode-space")
@@ -426,6 +529,11 @@ func main() {
 					}
 					g.Emit("H "+hxList(ss), true, "hold-random")
 				}
+				// round 4 (round4.go): histories of calls in one line (collision pairs, near-equal and
+				// repeated arguments, a much larger call in between), every length 1..300, UTF-8 sequences
+				kHistories(g)
+				eqC15(g)
+				utf8C15(g)
 				// sizes around the powers of two, single-class strings (scale.go); before the long random
 				// cases so that the first failing input reported is a structured one
 				scaleC15(g)
@@ -514,6 +622,9 @@ func main() {
 					g.Emit("S "+hx("a"+c+"b"), special(c), "every-byte")
 					g.Emit("S "+hx("\""+c+"\" '"+c+"' \\"+c), true, "every-byte")
 				}
+				// round 4: several Splits in one line, each leaving the pooled scanner to the next (round4.go)
+				kSmall(g)
+				kCollisions(g)
 				// Unicode white space is not a separator
 				for _, u := range uniSpaces {
 					for _, s := range []string{u, "a" + u + "b", u + "a", "a" + u, " " + u + " ", "a" + u + " b", u + u, "a b" + u + "c d", "\"" + u + "\"", "\\" + u} {
@@ -586,6 +697,11 @@ func main() {
 						sess(s, pickFrags(2))
 					}
 				}
+				// round 4 (round4.go): several Splits in one line (the pooled scanner as the call before
+				// left it), every token length and source offset 0..300 before every kind of event
+				kHistories(g)
+				eqC16(g)
+				utf8C16(g)
 				// runs, tokens and token counts around the powers of two (scale.go); before the long random
 				// inputs so that the first failing input reported is a structured one
 				scaleC16(g)
